@@ -212,6 +212,44 @@ func init() {
 					}
 				}
 			}
+			// symbolic key bytes after context-opening prefixes, with input faults
+			keyJob := func(mode, pre string, k, n int, end string, split bool) {
+				kv := []string{"mode", mode, "pre", pre, "k", itoa(k), "n", itoa(n), "end", end}
+				if split {
+					kv = append(kv, "split", "1")
+				}
+				j := mkJob(".ZZ_C01_Keys", shellSetup, kv...)
+				j.Stubs = paintStubs
+				jobs = append(jobs, j)
+			}
+			pres := map[string][]string{
+				"emacs":      {"", "\x1b", "\x18", "\x11", "\x1d", "\x1b[", "\x12"},
+				"vi-insert":  {"", "\x1b", "\x16"},
+				"vi-command": {"", "d", "c", "y", "v", "V", "f", "r", "\"", "q", "m", "g", "2", "di", "ya"},
+			}
+			for _, mode := range []string{"emacs", "vi-insert", "vi-command"} {
+				faultPre := map[string]bool{"": true, "\x11": true, "f": true, "d": true, "\x16": true}
+				for _, pre := range pres[mode] {
+					for _, end := range []string{"block", "eof", "err"} {
+						if end != "block" && tier != "thorough" && !faultPre[pre] {
+							continue
+						}
+						keyJob(mode, pre, 1, 1, end, false)
+						if end == "block" && (tier == "thorough" || pre == "\x1b" || pre == "") {
+							keyJob(mode, pre, 1, 1, end, true)
+						}
+					}
+					if tier == "thorough" && len(pre) <= 1 {
+						keyJob(mode, pre, 2, 1, "block", false)
+					}
+				}
+				// faults with no key at all, and a cursor position report typed as input
+				for _, end := range []string{"eof", "err"} {
+					keyJob(mode, "", 0, 0, end, false)
+				}
+				keyJob(mode, "\x1b[5;5R", 0, 1, "block", false)
+				keyJob(mode, "a\x1b[5;5Rb", 0, 1, "block", false)
+			}
 			return jobs
 		},
 		Assumptions: stepAssumptions,
